@@ -133,9 +133,11 @@ def forbidden_tokens(module_file):
     src = re.sub(r"/-.*?-/", "", src, flags=re.S)
     src = re.sub(r"--.*", "", src)
     bad = []
-    for tok in ("sorry", "admit", "native_decide", "bv_decide", "implemented_by", "unsafe ", "maxHeartbeats 0"):
-        if tok in src:
+    for tok in ("sorry", "admit", "native_decide", "bv_decide", "implemented_by", "maxHeartbeats 0"):
+        if re.search(r"(?<![A-Za-z0-9_.'])" + re.escape(tok) + r"(?![A-Za-z0-9_'])", src):
             bad.append(tok)
+    if re.search(r"(?<![A-Za-z0-9_.'])unsafe\s", src):
+        bad.append("unsafe")
     if re.search(r"^\s*axiom\s", src, flags=re.M):
         bad.append("axiom")
     return bad
